@@ -61,9 +61,9 @@ def m_c02(sc, res):
             for s in sf:
                 full = O.join(at, s)
                 if media.get(full or ".", (None,))[0] is None:  # a folder
-                    pre = (s + "/") if s else ""
-                    for p, v in vis.items():
-                        if v is not None and (p.startswith(pre)):
+                    # (the walk starts AT the named folder: patterns that exclude that folder or one above it are not asked)
+                    for p, v in O.visible_below(media, at, patterns, s.rstrip("/")).items():
+                        if v is not None:
                             expected[O.join(at, p)] = v
                 else:
                     expected[full] = media[full][0]
